@@ -200,6 +200,7 @@ struct Case {
     //! a loop notified by the current delivery may unsubscribe (one-shot, or a callback that disables / re-enables its own
     //! event) on its own thread while the process-level handler is still running on the raising thread
     bool reaction_may_overlap_handler = false;
+    bool reaction_user_driven = false;      // ... and at least one of those events changes its subscription from its callback (not a plain one-shot)
     uint32_t sent_plain_seen[NSIG_USED], sent_info_seen[NSIG_USED];
     Case() { for (auto &p : prev_cnt) p = 0; for (auto &p : failed_enable_destroyed) p = false; for (auto &p : sent_plain_seen) p = 0; for (auto &p : sent_info_seen) p = 0; }
 };
@@ -450,10 +451,15 @@ void check_after_deliveries(Case &C, const std::vector<Delivery> &ds, const std:
             std::string what = vh::fmt("e%d (loop %d/%s, %s, signals", e.id, e.loop, C.loops[e.loop]->engine.c_str(), flname[e.flavour]);
             for (int s : e.sigs) what += vh::fmt(" %s", g_signame[s]);
             what += vh::fmt(") got %d callback(s) for %s(%d) after %zu delivery(ies); the model expects %d", delta, g_signame[si], g_signo[si], ds.size(), want);
-            const char *ctx = C.reaction_may_overlap_handler ? "/notified-loop-unsubscribes-while-handler-runs" : "";
+            const char *ctx = !C.reaction_may_overlap_handler ? "" : C.reaction_user_driven ? "/callback-changes-subscription-while-handler-runs"
+                                                                                             : "/notified-loop-unsubscribes-while-handler-runs";
             if (C.reaction_may_overlap_handler)
-                what += " [in this delivery a one-shot / self-disabling event of a loop other than the raising thread was subscribed: its loop "
-                        "unsubscribes on its own thread as soon as it is notified, possibly before the handler on the raising thread has returned]";
+                what += C.reaction_user_driven
+                    ? " [in this delivery an event that disables / re-enables itself in its callback (or a one-shot) of a loop other than the raising thread "
+                      "was subscribed: its loop changes the subscription on its own thread as soon as it is notified, possibly before the handler on the "
+                      "raising thread has returned]"
+                    : " [in this delivery a plain one-shot event of a loop other than the raising thread was subscribed: the library itself unsubscribes it "
+                      "on its loop's thread as soon as that loop is notified, possibly before the handler on the raising thread has returned]";
             if (delta < want) {
                 fail(C, std::string("deliver/callback-missing") + ctx, what);
             } else if (!e.has(si)) {
@@ -515,11 +521,19 @@ void check_after_deliveries(Case &C, const std::vector<Delivery> &ds, const std:
 
 //! true when raising the signal now would run the default action (terminate the process) although the model has subscribers
 bool fatal_to_raise(Case &C, int si) {
-    if (model_count(C, si) == 0) return false;
     struct sigaction cur;
     if (::sigaction(g_signo[si], nullptr, &cur) != 0) return false;
     void *h = (cur.sa_flags & SA_SIGINFO) ? (void *)cur.sa_sigaction : (void *)cur.sa_handler;
     if (h != (void *)SIG_DFL) return false;
+    if (model_count(C, si) == 0) {
+        // nobody subscribed: the generator only raises when the harness's own disposition is not the default action
+        for (auto &e : C.evs) if (e->alive && e->indeterminate && e->has(si)) return true;   // not judged (see Ev::indeterminate), not raised
+        if (!disp_is_default(C.disp[si].kind))
+            fail(C, "disposition/not-restored/while-unsubscribed",
+                 vh::fmt("signal %s(%d) has no subscriber and the harness installed %s, but sigaction() reports SIG_DFL (not raised)", g_signame[si],
+                         g_signo[si], disp_to_string(C.disp[si].snap).c_str()));
+        return true;
+    }
     fail(C, "subscribe/default-disposition-while-an-enabled-event-is-subscribed",
          vh::fmt("%d enabled event(s) are subscribed to %s(%d) but the process disposition is SIG_DFL: a delivery would terminate the process "
                  "instead of reaching them (not raised)", model_count(C, si), g_signame[si], g_signo[si]));
@@ -556,7 +570,7 @@ void deliver(Case &C, const std::vector<Delivery> &ds, Pending *defer = nullptr)
     for (size_t k = 0; k < ne; ++k)
         for (int si = 0; si < NSIG_USED; ++si)
             was[k][si] = C.evs[k]->alive && C.evs[k]->enabled && C.evs[k]->has(si);
-    C.reaction_may_overlap_handler = false;
+    C.reaction_may_overlap_handler = false; C.reaction_user_driven = false;
     for (auto &d : ds) if (fatal_to_raise(C, d.si)) return;
     for (auto &d : ds) {
         std::set<int> loops_hit; int receivers = 0;
@@ -566,6 +580,7 @@ void deliver(Case &C, const std::vector<Delivery> &ds, Pending *defer = nullptr)
             ++expect[k][d.si]; ++receivers; loops_hit.insert(e.loop);
             if (e.flavour != F_PERSIST && C.loops[e.loop]->running && !(d.via == V_LOOP_RAISE && d.loop == e.loop)) {
                 C.reaction_may_overlap_handler = true;
+                if (e.flavour != F_ONESHOT) C.reaction_user_driven = true;
                 vh::counter("window_reaction_may_overlap_handler");
             }
             if (e.flavour == F_ONESHOT || e.flavour == F_SELF_DISABLE) {
